@@ -236,10 +236,19 @@ fn build_intent<'b, 'r, 'c, 's:'c, 'm:'c>(rules_with_context: &'r mut SpeechRule
                 intent.set_attribute_value(INTENT_PROPERTY, &properties);
             } else {
                 let saved_intent = mathml.attribute_value(INTENT_ATTR).unwrap();
+                let saved_properties = mathml.attribute_value(INTENT_PROPERTY);
                 mathml.remove_attribute(INTENT_ATTR);
                 mathml.set_attribute_value(INTENT_PROPERTY, &properties);   // needs to be set before the pattern match
-                intent = rules_with_context.match_pattern::<Element<'m>>(mathml)?;
+                let match_result = rules_with_context.match_pattern::<Element<'m>>(mathml);
+                // put the (live) MathML back the way it was before looking at the result:
+                //   an error (e.g., an illegal intent in a descendant) must not lose the 'intent' attr, and
+                //   the temporary property attr must not leak into a later match of this element (e.g., intent error recovery)
+                match saved_properties {
+                    None => mathml.remove_attribute(INTENT_PROPERTY),
+                    Some(value) => {mathml.set_attribute_value(INTENT_PROPERTY, value);},
+                };
                 mathml.set_attribute_value(INTENT_ATTR, saved_intent);
+                intent = match_result?;
             }
             return Ok(intent);      // if we start with properties, then there can only be properties
         },
